@@ -9,6 +9,6 @@ PROP = {
     "trusted": ["Modelled, not verified: sockets, net/http, Apache Thrift protocol byte layouts; the transports are assumed to carry frames unchanged (C01/C04/C12)"],
     "level_text": "Theorems over the composition model FV.Rpc.call (emitted client -> frame-preserving transport -> emitted processor -> emitted result mapping), for ALL definitions tables, methods, well-typed argument values and handler behaviours: the handler is invoked exactly once with equal arguments; the caller observes exactly the returned value / the declared exception / INTERNAL_ERROR or the handler's own application exception type; a successful oneway produces no reply; an inherited method dispatches to the same processor function through the child's processor. Proved from the C02 round-trip theorem (used twice) and encoder totality. Tie: real emitted clients and processors with generated handler stubs, in-memory and HTTP transports, three protocols.",
     "level_note": "Trusted: Lean kernel; the model of the emitted code; generated-code harness (stub generator, reflection runner, Python oracle). TCP adapter + FSimpleServer and NATS transports are covered by C01/C05/C13/C14/C20 checks at the runtime level, not in this suite's quick tier.",
-    "assumptions": ["argument and result values within nesting depth 64, no IDL default values", "a method lists each exception type at most once in `throws` (two entries of one type make the emitted Go type switch not compile — noted in DESIGN §8)"],
+    "assumptions": ["argument and result values within nesting depth 64; IDL default values on the fields of the struct-likes used as argument, result and exception types are generated and modelled (C02), none on the service ARGUMENTS themselves (the emitted args/result structs are made by zero literals, not by constructors)", "a method lists each exception type at most once in `throws` (two entries of one type make the emitted Go type switch not compile — noted in DESIGN §8)"],
     "technique": "Lean 4 theorems about a composition model built on the C02 round-trip theorem; tie = compile random services with the real compiler, run emitted client + processor with generated handler stubs against the model and an independent oracle",
 }
